@@ -30,15 +30,18 @@ def run(rep, ctx):
     with rep.guard("R02.2"):
         c04.masked_index_spaces(rep, M, "R02.2")
     rep.rule("R02.3", "both prototype-cell builders are total on what the span search can hand them: an empty list of copies is skipped, the smallest-cell filter "
-                      "keeps the smallest cell (shared with C01 / C17)")
+                      "keeps the smallest cell, image factors are converted with the cell as the right operand (any cell shape / orientation; shared with C01 / C04 / C17)")
     with rep.guard("R02.3"):
         c04.builders_total(rep, M, "R02.3")
+        c04.factors_times_cell(rep, M, "R02.3")
+        c04.both_directions_alike(rep, M, "R02.3")
     rep.rule("R02.4", "the crystal is searched on a working copy whose atoms are inside the cell: missing cell vectors completed, atoms outside along a non-periodic "
                       "axis always trigger enlargement and centring, the copy is wrapped (translated and unwrapped descriptions give the same answer; shared with C01 / C04)")
     with rep.guard("R02.4"):
         c01.r01_14(rep, M, "R02.4")
         c01.r01_13(rep, M, "R02.4")
         c01.r01_6(rep, M, "R02.4")
+        c04.axis_index_typing(rep, M, "R02.4", GC)
     rep.rule("R02.5", "an atom is a member of the region exactly when it is matched within the tolerance with the right species; members are the matched basis atoms "
                       "(region-search view of the matching loop; shared with C03 / C16)")
     with rep.guard("R02.5"):
